@@ -22,7 +22,7 @@ SUMMARY = {
     "C12-2": ("worker's `state = WAIT; broadcast` without the mutex", "last worker reports between the coordinator's test and wait", "caught"),
     "C13-1": ("penalty-order check loops over `penaltyOrder.size()` instead of all dimensions", "2-D fit, one broadcast penalty order above a later dimension's order", "caught"),
     "C13-2": ("`coords[i].size()` check moved into the first per-dimension loop, before `coords.size()` is checked", "fewer coordinate vectors than dimensions", "missed at first; VG-1 index-after-count added"),
-    "C14-1": ("truncated-power test `> 0.0` -> `> FLT_EPSILON` in `convoluted_blossom`", "knot sums closer than 1.2e-7 (axis in small units)", "MISSED: numerical clause of C14, not decided by any rule"),
+    "C14-1": ("truncated-power test `> 0.0` -> `> FLT_EPSILON` in `convoluted_blossom`", "knot sums closer than 1.2e-7 (axis in small units)", "missed at first (numerical clause); caught since UW-6 (no absolute tolerance in the scale-equivariant kernels) was added for seed C14-3"),
     "C15-1": ("coefficient scatter uses `permutation[i]` instead of the inverse map", "a 3-cycle on >= 3 dimensions", "caught"),
     "C15-2": ("validated entry narrowed: `size_t j` -> `uint32_t j`", "an entry >= 2^32 whose low bits are a missing index", "missed at first; VG-3 entry-not-narrowed added"),
     "C16-1": ("short/long key boundary `keylen<=9` -> `<=8`", "key of exactly 8 characters with punctuation or a 60-68 character value", "missed at first; KS-1 added"),
@@ -45,6 +45,11 @@ SUMMARY = {
     "C18-3": ("`read_fits_mem`: occupied check moved after `fits_open_memfile`, before the closing guard", "failed read from memory into an occupied handle: leaks a cfitsio handle each time", "missed at first; RH-1 (opened handle never abandoned) added"),
     "C19-3": ("`readOrder` stores `ORDERn` into `order[ndim-1-n]`", "mixed, non-palindromic orders and a convolution in the lower-order dimension", "missed at first; FS-8 (name index = data index) added"),
     "C20-3": ("`fit`'s cleanup guard moved below the allocation block", "allocator failure during fit's setup: half-built non-empty table", "caught (TS-2)"),
+    "C07-3": ("EXTENTS size guard `!= 2*ndim` -> `< 2*ndim` in the reader", "crafted header with NAXIS1 > 2*ndim in the EXTENTS HDU: heap overflow while reading", "missed at first under C07 (caught under C06: FS-7); C07 now runs FS-7"),
+    "C09-3": ("one shared `size()>1` flag and index for `penaltyOrder` and `smoothing` in fit's penalty loop", "smoothing and penalty order given with different multiplicities", "caught (GW-1; also VG-1 under C13)"),
+    "C12-3": ("coordinator's completion loop rewritten as `while(!done){ wait; check; }`", "workers finish before the coordinator re-acquires the mutex: lost wake-up, hang", "caught (MT-2)"),
+    "C14-3": ("`divdiff` returns 0 when the knot span is below FLT_EPSILON", "axis in small absolute units (ns-scale knots in seconds)", "missed at first; UW-6 (no absolute tolerance in the scale-equivariant kernels) added — it also catches C14-1"),
+    "C16-3": ("blank-trimming loop in the aux reader tests `value[vlen-1]` instead of `vbegin[vlen-1]`", "unpadded value whose second-to-last character is a blank, then a round trip", "missed at first; KM-2 (one start/length view) added; a correct trim stays silent"),
     "C20-2": ("`extents[0] = nullptr` removed from the reader", "allocation failure at the 7th request with a non-zero-filling allocator", "caught"),
 }
 try:
